@@ -13,7 +13,7 @@ import (
 
 // RuleN2: Schema.ContentJSight is only meaningful for the JSight notation.
 func RuleN2(c *Ctx) {
-	sc := c.Run.Begin("N2", "Schema.ContentJSight is dereferenced only where the same schema is known to be of JSight notation (Notation test, nil test, fresh assignment, or the JSight-only rawPathVariable.schema slot whose every store is checked)", 2)
+	sc := c.Run.Begin("N2", "Schema.ContentJSight is dereferenced only where the same schema is known to be of JSight notation (Notation test, nil test, fresh assignment, or the JSight-only rawPathVariable.schema slot whose every store is checked)", 1)
 	defer sc.End()
 	content := c.Field("catalog", "Schema", "ContentJSight")
 	notationF := c.Field("catalog", "Schema", "Notation")
@@ -280,6 +280,35 @@ func (n *n2) isJSightValue(pk *pkgT, cf *cfgx.Func, val ast.Expr, at ast.Node) (
 		if def := multiDefCall(cf, info, id); def != nil && Callee(info, def) == n.unmarshal {
 			if cf.WrittenOnce(info.ObjectOf(id)) {
 				return true, "result of UnmarshalJSightSchema"
+			}
+		}
+	}
+	// result i of a repository helper whose success returns all hand out, at position i, a
+	// local that is itself a result of UnmarshalJSightSchema
+	if id, ok := ast.Unparen(val).(*ast.Ident); ok && cf.WrittenOnce(info.ObjectOf(id)) {
+		if rhs, idx, isTuple := cf.TupleDefOf(info.ObjectOf(id)); isTuple {
+			if call, isCall := ast.Unparen(rhs).(*ast.CallExpr); isCall {
+				if h := Callee(info, call); h != nil && h != n.unmarshal {
+					if hd := n.c.P.Decl(h); hd != nil {
+						hpk := n.c.P.PkgOfDecl(hd)
+						ros := n.c.resultObjs(hpk, hd, retSuccess)
+						if idx < len(ros) && ros[idx] != nil {
+							hcf := n.c.CFG(hpk, hd.Body)
+							var hid *ast.Ident
+							ast.Inspect(hd.Body, func(x ast.Node) bool {
+								if i2, isId := x.(*ast.Ident); isId && hpk.TypesInfo.ObjectOf(i2) == ros[idx] && hid == nil {
+									hid = i2
+								}
+								return true
+							})
+							if hid != nil {
+								if def := multiDefCall(hcf, hpk.TypesInfo, hid); def != nil && Callee(hpk.TypesInfo, def) == n.unmarshal && hcf.WrittenOnce(ros[idx]) {
+									return true, "result of UnmarshalJSightSchema handed out by " + h.Name()
+								}
+							}
+						}
+					}
+				}
 			}
 		}
 	}
